@@ -159,9 +159,11 @@ def View.sighashTaproot (sha : Bytes → Bytes) (buf : Bytes) (v : View) (idx : 
     (codesep : Option Nat) : Option Bytes :=
   if idx ≥ v.numIn then none else
   if values.length ≠ v.numIn then none else
+  if spks.length ≠ v.numIn then none else     -- "All spent scripts are required"
   match sighashCheck f with
   | none => none
   | some (sh, acp) =>
+    if acp && sh == 0 then none else   -- 0x80 is not a hash type of BIP-341
     if f ≥ 256 then none else   -- bytes([sighash])
     let spendType := 2 * extFlag + (if annex.isSome then 1 else 0)
     if spendType ≥ 256 then none else
